@@ -19,6 +19,7 @@ from .analyze_tags import InnerTagMap
 from .analyze_tags import TagAnalysis
 from .builtin import DictLoader
 from .exceptions import BlockNestingError
+from .exceptions import ContextDepthError
 from .exceptions import LiquidError
 from .exceptions import LiquidSyntaxError
 from .exceptions import TemplateInheritanceError
@@ -283,6 +284,13 @@ class Environment:
         except (LiquidSyntaxError, TemplateInheritanceError, BlockNestingError) as err:
             err.template_name = path
             raise err
+        except RecursionError as err:
+            # The block nesting limit keeps a top-level parse shallow. We get here
+            # when a partial template is loaded from deep inside a render.
+            raise ContextDepthError(
+                "maximum context depth reached, possible recursive include or render",
+                token=None,
+            ) from err
         except Exception as err:  # noqa: BLE001
             raise LiquidError("unexpected liquid parsing error", token=None) from err
         return self.template_class(
